@@ -16,8 +16,19 @@ fn main() {
         for line in text.lines() {
             let t = line.trim_start();
             if t.starts_with("proof!") || t.starts_with("proof_h!") { in_proof = true; }
+            // harness-generating macros: `some_macro!(cNN_name, ..)`
+            if let Some(p) = t.find("!(c") {
+                let head = &t[..p];
+                let rest = &t[p + 2..];
+                let b = rest.as_bytes();
+                if !head.is_empty() && head.chars().all(|c| c.is_alphanumeric() || c == '_')
+                    && b.len() > 4 && b[1].is_ascii_digit() && b[2].is_ascii_digit() && b[3] == b'_' {
+                    if let Some(i) = rest.find(',') { names.push((stem.clone(), rest[..i].to_string())); }
+                }
+            }
             if in_proof {
-                if let Some(rest) = t.strip_prefix("fn ") {
+                let t2 = if t.starts_with("proof") { t[t.find('!').map_or(0, |i| i + 1)..].trim_start_matches(|c| c == ' ' || c == '{') } else { t };
+                if let Some(rest) = t2.strip_prefix("fn ") {
                     if let Some(i) = rest.find("()") {
                         names.push((stem.clone(), rest[..i].to_string()));
                         in_proof = false;
